@@ -5,6 +5,7 @@ import (
 	"context"
 	"errors"
 	"io"
+	"time"
 
 	"github.com/tsuna/gohbase/hrpc"
 	"github.com/tsuna/gohbase/pb"
@@ -411,7 +412,13 @@ func VerifScanEndings() {
 	reversed := verifParam("REVERSED") == 1
 	start := verifBytesN(1)
 	var stop []byte
+	// the scan's context either is cancelled by its owner or carries a deadline that passes:
+	// the close of an open region scanner must reach the server in both cases
+	byDeadline := verifBool()
 	ctx, cancel := context.WithCancel(context.Background())
+	if byDeadline {
+		ctx, cancel = context.WithTimeout(context.Background(), 200*time.Millisecond)
+	}
 	sc := newScanner(h, vNewScan(ctx, start, stop, reversed, false), vLogger())
 
 	h.earlyStop = true
@@ -431,7 +438,13 @@ func VerifScanEndings() {
 			verifReach("closed-early")
 		}
 		if i == at && ending == 2 {
-			cancel()
+			if byDeadline {
+				verifQuiesce() // close requests already on their way are not what is examined here
+				verifExpire(ctx)
+				verifReach("expired")
+			} else {
+				cancel()
+			}
 			verifReach("cancelled")
 		}
 		r, err := sc.Next()
@@ -460,11 +473,18 @@ func VerifScanEndings() {
 				}
 				verifReach("failed")
 				if ending == 4 {
+					// (cancelled also when the context has a deadline: the close request spawned by
+					// the error is concurrent with what happens here, and a deadline passing before
+					// that goroutine has run cannot be forced in a native replay)
 					cancel()
 					verifReach("failed-then-cancelled")
 				}
 			} else {
-				verifAssert(ending == 2 && err == context.Canceled, "only a cancelled scan reports the context error")
+				wantErr := context.Canceled
+				if byDeadline {
+					wantErr = context.DeadlineExceeded
+				}
+				verifAssert(ending == 2 && err == wantErr, "only a cancelled scan reports the context error")
 			}
 		default:
 			verifAssert(r != nil && len(r.Cells) > 0, "every result carries cells")
